@@ -30,6 +30,8 @@ import (
 	"runtime"
 	"sync"
 	"syscall"
+
+	"github.com/EdgeCast/vflow/ipfix"
 )
 
 var (
@@ -56,6 +58,14 @@ func main() {
 
 	if !opts.ProducerEnabled {
 		logger.Println("producer message queue has been disabled")
+	}
+
+	// the ipfix and the netflow v9 decoders share the information model:
+	// load the extra elements before any of them is running
+	if opts.IPFIXEnabled {
+		if err := ipfix.LoadExtElements(opts.VFlowConfigPath); err != nil {
+			logger.Println("load.ext.elements:", err)
+		}
 	}
 
 	protos := []proto{NewSFlow(), NewIPFIX(), NewNetflowV5(), NewNetflowV9()}
